@@ -2,7 +2,6 @@ package fasthttp
 
 import (
 	"bufio"
-	"bytes"
 	"io"
 )
 
@@ -61,6 +60,9 @@ func c03Parse(w []byte, head []bool) (rs []c03Resp, ok bool) {
 				}
 			}
 		}
+		if chunked && cl >= 0 {
+			return rs, false // RFC 9112 §6.3: a sender must not send both
+		}
 		isHead := len(rs) < len(head) && head[len(rs)]
 		switch {
 		case isHead || r.status == 204 || r.status == 304 || r.status < 200:
@@ -113,57 +115,110 @@ func c03Parse(w []byte, head []bool) (rs []c03Resp, ok bool) {
 
 var c03Statuses = [...]int{200, 204, 304, 404, 999}
 
-// vhC03ResponseFraming: a handler program (status × body-building call with
-// symbolic body bytes) answers a GET or HEAD; a second fixed request follows.
-// The wire bytes must split into exactly the responses built.
-func vhC03ResponseFraming() {
-	body := c05Sym("body", vParam("bodyLen", 3))
-	status := c03Statuses[vChoose("status", len(c03Statuses))]
-	isHead := vBool("head")
-	how := vChoose("how", 6)
-	closeFirst := vBool("closeFirst")
+// c03Reader yields data in a scripted way: mode 0 as much as fits, mode 1 one
+// byte per call, mode 2 the last bytes together with io.EOF.
+type c03Reader struct {
+	data []byte
+	pos  int
+	mode int
+}
+
+func (r *c03Reader) Read(p []byte) (int, error) {
+	if r.pos >= len(r.data) {
+		return 0, io.EOF
+	}
+	n := len(r.data) - r.pos
+	if r.mode == 1 {
+		n = 1
+	}
+	if n > len(p) {
+		n = len(p)
+	}
+	copy(p, r.data[r.pos:r.pos+n])
+	r.pos += n
+	if r.mode == 2 && r.pos >= len(r.data) {
+		return n, io.EOF
+	}
+	return n, nil
+}
+
+const c03NumHow = 6
+
+// c03Apply performs one body-building call and returns the body it stands for.
+func c03Apply(ctx *RequestCtx, how int, body []byte, readerMode int) []byte {
+	switch how {
+	case 0:
+		ctx.SetBody(body)
+	case 1:
+		ctx.SetBodyString("x")
+		ctx.Response.AppendBody(body)
+		return append([]byte("x"), body...)
+	case 2: // stream, exact size
+		ctx.SetBodyStream(&c03Reader{data: body, mode: readerMode}, len(body))
+	case 3: // stream, unknown size
+		ctx.SetBodyStream(&c03Reader{data: body, mode: readerMode}, -1)
+	case 4: // raw body
+		ctx.Response.SetBodyRaw(body)
+	case 5: // stream writer
+		ctx.SetBodyStreamWriter(func(w *bufio.Writer) {
+			w.Write(body)
+		})
+	}
+	return body
+}
+
+func c03Serve(isHead bool, http10 bool, handler func(ctx *RequestCtx)) (c *vsSegConn, calls *int) {
 	req := "GET /a HTTP/1.1\r\nHost: a\r\n\r\n"
 	if isHead {
 		req = "HEAD /a HTTP/1.1\r\nHost: a\r\n\r\n"
 	}
-	c := &vsSegConn{segs: [][]byte{[]byte(req), []byte("GET /b HTTP/1.1\r\nHost: a\r\nConnection: close\r\n\r\n")}}
+	if http10 {
+		req = "GET /a HTTP/1.0\r\nHost: a\r\nConnection: keep-alive\r\n\r\n"
+	}
+	c = &vsSegConn{segs: [][]byte{[]byte(req), []byte("GET /b HTTP/1.1\r\nHost: a\r\nConnection: close\r\n\r\n")}}
 	s := &Server{NoDefaultDate: true, NoDefaultServerHeader: true}
-	calls := 0
+	n := 0
+	calls = &n
 	s.Handler = func(ctx *RequestCtx) {
-		calls++
-		if calls > 1 {
+		n++
+		if n > 1 {
 			ctx.SetBodyString("second")
 			return
 		}
-		ctx.SetStatusCode(status)
-		if closeFirst {
-			ctx.SetConnectionClose()
-		}
-		switch how {
-		case 0:
-			ctx.SetBody(body)
-		case 1:
-			ctx.SetBodyString("x")
-			ctx.Response.AppendBody(body)
-		case 2: // stream, exact size
-			ctx.SetBodyStream(bytes.NewReader(body), len(body))
-		case 3: // stream, unknown size
-			ctx.SetBodyStream(bytes.NewReader(body), -1)
-		case 4: // raw body
-			ctx.Response.SetBodyRaw(body)
-		case 5: // stream writer
-			ctx.SetBodyStreamWriter(func(w *bufio.Writer) {
-				w.Write(body)
-			})
-		}
+		handler(ctx)
 	}
 	s.ServeConn(c)
-	want := body
-	if how == 1 {
-		want = append([]byte("x"), body...)
+	return c, calls
+}
+
+// c03AfterHead: the number of bytes on the wire after the first header block
+// (-1 if no complete header block was written).
+func c03AfterHead(w []byte) int {
+	i := 0
+	for i+3 < len(w) && string(w[i:i+4]) != "\r\n\r\n" {
+		i++
 	}
+	if i+3 >= len(w) {
+		return -1
+	}
+	return len(w) - (i + 4)
+}
+
+// c03Check: the wire splits into exactly the responses built. declared >= 0
+// with a body stream of a different length selects the size-mismatch clause:
+// never more than the declared size on the wire, closed right after.
+func c03Check(c *vsSegConn, calls int, isHead bool, status int, want []byte, wantClose bool, declared int) {
 	noBody := isHead || status == 204 || status == 304
 	vNote(string(c.wrote))
+	if declared >= 0 && declared != len(want) && !noBody {
+		after := c03AfterHead(c.wrote)
+		vAssert("never-more-than-declared-on-the-wire", after <= declared)
+		if after >= 0 && declared < len(want) {
+			vAssert("declared-prefix-sent", after == declared && string(c.wrote[len(c.wrote)-after:]) == string(want[:declared]))
+		}
+		vAssert("closed-right-after", calls == 1 && c.closed == 1)
+		return
+	}
 	rs, ok := c03Parse(c.wrote, []bool{isHead, false})
 	vAssert("wire-splits-into-responses", ok && len(rs) >= 1)
 	if !ok || len(rs) == 0 {
@@ -175,11 +230,140 @@ func vhC03ResponseFraming() {
 	} else {
 		vAssert("body-as-built", string(rs[0].body) == string(want))
 	}
-	vAssert("close-header-as-set", rs[0].close == closeFirst)
+	vAssert("close-header-as-set", rs[0].close == wantClose)
 	if !rs[0].close {
 		vAssert("next-response-starts-where-this-ends", len(rs) == 2 && rs[1].status == 200 && string(rs[1].body) == "second" && calls == 2)
 	} else {
 		vAssert("closed-after-close", len(rs) == 1 && calls == 1)
 	}
-	_ = io.EOF
+}
+
+// vhC03ResponseFraming: a handler program (status × body-building call with
+// symbolic body bytes, streams read in three chunkings) answers a GET or
+// HEAD; a second fixed request follows.
+func vhC03ResponseFraming() {
+	body := c05Sym("body", vParam("bodyLen", 3))
+	status := c03Statuses[vChoose("status", len(c03Statuses))]
+	isHead := vBool("head")
+	how := vChoose("how", c03NumHow)
+	readerMode := 0
+	if how == 2 || how == 3 {
+		readerMode = vChoose("readerMode", 3)
+	}
+	closeFirst := vBool("closeFirst")
+	var want []byte
+	c, calls := c03Serve(isHead, false, func(ctx *RequestCtx) {
+		ctx.SetStatusCode(status)
+		if closeFirst {
+			ctx.SetConnectionClose()
+		}
+		want = c03Apply(ctx, how, body, readerMode)
+	})
+	c03Check(c, *calls, isHead, status, want, closeFirst, -1)
+}
+
+// vhC03TwoCalls: two body-building calls in a row (the second replaces the
+// first, whatever kind either is).
+func vhC03TwoCalls() {
+	body1 := c05Sym("body1", vParam("bodyLen", 3))
+	body2 := c05Sym("body2", 2)
+	how1 := vChoose("how1", c03NumHow)
+	how2 := vChoose("how2", c03NumHow)
+	vAssume(how2 != 1) // AppendBody extends: covered as a first call only
+	isHead := vBool("head")
+	status := 200
+	if vBool("notModified") {
+		status = 304
+	}
+	var want []byte
+	c, calls := c03Serve(isHead, false, func(ctx *RequestCtx) {
+		ctx.SetStatusCode(status)
+		c03Apply(ctx, how1, body1, 0)
+		want = c03Apply(ctx, how2, body2, 0)
+	})
+	c03Check(c, *calls, isHead, status, want, false, -1)
+}
+
+// vhC03HandSet: framing-related headers set by hand next to a body.
+func vhC03HandSet() {
+	body := c05Sym("body", vParam("bodyLen", 3))
+	how := vChoose("how", c03NumHow)
+	hand := vChoose("handSet", 5)
+	before := vBool("headerBeforeBody")
+	isHead := vBool("head")
+	var want []byte
+	wantClose := false
+	declared := -1
+	c, calls := c03Serve(isHead, false, func(ctx *RequestCtx) {
+		set := func() {
+			switch hand {
+			case 0:
+				ctx.Response.Header.Set("Content-Length", "2")
+			case 1:
+				ctx.Response.Header.Set("Transfer-Encoding", "chunked")
+			case 2:
+				ctx.Response.Header.Set("Connection", "close")
+				wantClose = true
+			case 3:
+				ctx.Response.Header.Set("Connection", "keep-alive")
+			case 4:
+				ctx.Response.Header.Add("Content-Length", "1")
+				ctx.Response.Header.Add("Transfer-Encoding", "identity")
+			}
+		}
+		if before {
+			set()
+		}
+		want = c03Apply(ctx, how, body, 0)
+		if !before {
+			set()
+		}
+		if ctx.Response.IsBodyStream() {
+			declared = ctx.Response.Header.ContentLength()
+		}
+	})
+	c03Check(c, *calls, isHead, 200, want, wantClose, declared)
+}
+
+// vhC03StreamMismatch: a body stream that yields fewer or more bytes than the
+// size declared for it: never more than the declared size on the wire, and
+// the connection is closed right after.
+func vhC03StreamMismatch() {
+	body := c05Sym("body", vParam("bodyLen", 3))
+	delta := 1
+	if vBool("declaredSmaller") {
+		delta = -1
+	}
+	declared := len(body) + delta
+	vAssume(declared >= 0)
+	readerMode := vChoose("readerMode", 3)
+	c, calls := c03Serve(false, false, func(ctx *RequestCtx) {
+		ctx.SetBodyStream(&c03Reader{data: body, mode: readerMode}, declared)
+	})
+	c03Check(c, *calls, false, 200, body, false, declared)
+}
+
+// vhC03Timeout: the handler gives up with TimeoutError*: the timeout response
+// is framed for the request that timed out.
+func vhC03Timeout() {
+	kind := vChoose("request", 3) // GET, HEAD, HTTP/1.0 keep-alive
+	withCode := vBool("withCode")
+	body := c05Sym("body", 2)
+	for _, b := range body {
+		vAssume(b >= ' ' && b < 0x7f)
+	}
+	var want []byte
+	status := StatusRequestTimeout
+	c, calls := c03Serve(kind == 1, kind == 2, func(ctx *RequestCtx) {
+		ctx.SetBodyString("abandoned")
+		ctx.SetStatusCode(202)
+		if withCode {
+			status = 503
+			ctx.TimeoutErrorWithCode(string(body), 503)
+		} else {
+			ctx.TimeoutError(string(body))
+		}
+		want = body
+	})
+	c03Check(c, *calls, kind == 1, status, want, false, -1)
 }
